@@ -280,6 +280,7 @@ class _Canon(ast.NodeTransformer):
     """Syntactic sugar is removed once, when a module is loaded, so that every rule sees one spelling:
          x: T = v          ->  x = v            (annotated assignment with a value)
          x is None         ->  x == None        (and `is not` -> `!=`), only against the literal None
+         0 < n             ->  n > 0            (a constant on the left of a single comparison goes to the right)
          if not c: A else: B   ->  if c: B else: A      (two-branch `if` / conditional expression whose test is a negation: `not c`,
                                                           `a != b`, `a is not b`, `a not in b`; an elif chain is left alone)
        Positions are kept, so messages still point at the original lines."""
@@ -318,6 +319,14 @@ class _Canon(ast.NodeTransformer):
 
     def visit_Compare(self, node):
         self.generic_visit(node)
+        # a constant on the left goes to the right: 0 < n  ->  n > 0,  1 == d  ->  d == 1
+        flip = {ast.Eq: ast.Eq, ast.NotEq: ast.NotEq, ast.Lt: ast.Gt, ast.Gt: ast.Lt, ast.LtE: ast.GtE, ast.GtE: ast.LtE}
+        if len(node.ops) == 1 and type(node.ops[0]) in flip:
+            l, r = node.left, node.comparators[0]
+            plain = (ast.Name, ast.Attribute, ast.Subscript)
+            if (isinstance(l, ast.Constant) and not isinstance(r, ast.Constant)) or (isinstance(r, plain) and not isinstance(l, plain + (ast.Constant,))):
+                # also: a computed value against a plain name -> the name goes to the left (len(shape) == k -> k == len(shape))
+                node.left, node.comparators, node.ops = r, [l], [flip[type(node.ops[0])]()]
         ops = []
         for op, c in zip(node.ops, node.comparators):
             if isinstance(c, ast.Constant) and c.value is None and isinstance(op, (ast.Is, ast.IsNot)):
@@ -382,6 +391,23 @@ def _canonicalise(tree):
             _inline_attr_aliases(n)
     ast.fix_missing_locations(tree)
     return tree
+
+
+TORCH_MODULE_ALIASES = ("tn", "torch", "np", "numpy", "tnf", "oe")
+
+
+def call_args(call: ast.Call, name: str):
+    """Arguments of a tensor operation in either spelling: `tn.reshape(X, s)` and `X.reshape(s)` both give [X, s]; `tn.linalg.norm(X)` and
+    `X.norm()` both give [X] for name 'norm'.  None when the call is not that operation."""
+    f = call.func
+    if not (isinstance(call, ast.Call) and isinstance(f, ast.Attribute) and f.attr == name):
+        return None
+    root = f.value
+    while isinstance(root, ast.Attribute):
+        root = root.value
+    if isinstance(root, ast.Name) and root.id in TORCH_MODULE_ALIASES and not isinstance(f.value, ast.Call):
+        return list(call.args)                     # function spelling
+    return [f.value] + list(call.args)             # method spelling: the receiver is the first argument
 
 
 def norm(node: ast.AST) -> str:
